@@ -329,13 +329,23 @@ Definition trig_locker (s : state) (o : op) : bool :=
   end.
 
 (* C15.supply_address_transacts: the supply address is the source or the target of a wrapped-token
-   movement requested by the operation *)
-Definition trig_supply (E : env) (o : op) : bool :=
+   movement requested by the operation (as sender, as the Locker named in a report, as the owner
+   of the tracker a report is about, or as an end of a transfer) *)
+Definition trig_supply (E : env) (s : state) (o : op) : bool :=
   match o with
   | Lock a _ | Redeem a _ => N.eqb a (e_supply E)
-  | Report _ l _ _ _ => N.eqb l (e_supply E)
+  | Report n l _ _ _ =>
+      N.eqb l (e_supply E) ||
+      match ongoing s !! n with Some t => N.eqb (t_owner t) (e_supply E) | None => false end
   | Transfer f t _ => N.eqb f (e_supply E) || N.eqb t (e_supply E)
   | EndBlock _ _ => false
+  end.
+
+(* a history none of whose steps is inside that trigger *)
+Fixpoint supply_guarded (E : env) (s : state) (ops : list op) : Prop :=
+  match ops with
+  | [] => True
+  | o :: r => trig_supply E s o = false /\ supply_guarded E (step E s o).1 r
   end.
 
 Definition minted_names (l : list event) : list name :=
